@@ -5,10 +5,19 @@ import EAO.Lemmas.CHPCommit
 import EAO.Lemmas.CHPProfile
 /-!
 # EAO.Lemmas.CHPProfCommit — `assembleCHPP` (CHP / Plant WITH start / shutdown ramp profiles, hence with shutdown
-variables): (A) the bounds of the on / start / shutdown variables, (B) the start / shutdown flags as transition
-indicators (all steps, first and last step included) and the bridge from the commitment rows to the run-length
-specification `UC.MinUpDown` with the minimum runtime increased by the ramp lengths, (C) the heat-profile rows
-`heatProfRows`, (D) `convertRamp` (`_convert_ramp`): identity, averaging, interpolation.
+variables) and `convertRamp`; lemmas for `EAO/Properties/C06Profile.lean`.
+
+(A) bounds of the on / start / shutdown variables (`lowerP_*`, `upperP_*`) under `CommitWFP`;
+(B) the start / shutdown flags as transition indicators at ALL steps (`FlagsF`, `FlagOK`, `flagsF_iff`, `P_flags`,
+    `flag_rows_iff`, `first_step_flags`) and the bridge from the commitment rows to the run-length specification
+    `UC.MinUpDown` with the minimum runtime increased by the ramp lengths (`commit_rows_iff_spec_prof`,
+    `feasible_imp_spec`); well-formedness from a decidable check and from `resolveCHPP` (`resolveCHPP_wf`);
+(C) the heat-profile rows `heatProfRows` (`heatProfLower_sat`, `heatProfUpper_sat`, `heat_*_bounds`,
+    `assemble_ignores_start_heat`); (C') ramp rows with any number of flags (`ramp_rows_general`);
+(D) `convertRamp` (`_convert_ramp`): identity, averaging for whole and arbitrary ratios (`convertRamp_coarse_int`,
+    `convertRamp_coarse_general`, `coarse_weights`, volume), interpolation (`interp_between`, `convertRamp_fine_int`,
+    `fine_entry_*`), monotonicity (`LeL`, `convertRamp_mono`, `mkProf_ordered`).
+Core Lean only (no Mathlib).
 -/
 namespace EAO.CHPProfCommit
 open EAO EAO.UC
@@ -498,7 +507,7 @@ def StopsAt (r : CHPRP) (x : Vec) (t : Nat) : Prop :=
 def FlagExactAt (r : CHPRP) (x : Vec) (t : Nat) : Prop :=
   (x (r.core.layout.start t) = 1 ↔ StartsAt r x t) ∧ (x (r.shut t) = 1 ↔ StopsAt r x t)
 
-/-- the one deviation the rows admit: at the LAST step `T − 1 ≥ 1` both flags are 1 and nothing switches -/
+/-- the one deviation the rows allow: at the LAST step `T − 1 ≥ 1` both flags are 1 and nothing switches -/
 def FlagBothAt (r : CHPRP) (x : Vec) (t : Nat) : Prop :=
   1 ≤ t ∧ t + 1 = r.core.T ∧ x (r.core.layout.on (t-1)) = x (r.core.layout.on t) ∧
     x (r.core.layout.start t) = 1 ∧ x (r.shut t) = 1
@@ -914,6 +923,24 @@ theorem ramp_first_lower_general (r : CHPRP) (x : Vec) (hx : (assembleCHPP r).Fe
     tsum_const _ (fun i => r.shut i) _ x
   rw [CHPProfile.rampFirstLowerP_eval, hc, e] at hl
   split at hl <;> simp_all <;> grind
+
+
+/-- `Plant(min 3, max 10, ramp 1, start ramp [1/2, 1] … [1, 2])`, three steps, was off (`CHPProfile.witnessProf` with a ramp) -/
+def witnessRamp : CHPRP :=
+  { CHPProfile.witnessProf with core := { CHPProfile.witnessProf.core with ramp := some 1 } }
+
+/-- start at step 0, dispatch `1, 2, 3` -/
+def xRamp : Vec := fun j => [1, 2, 3, 1, 1, 1, 1, 0, 0, 0, 0, 0].getD j 0
+
+theorem witnessRamp_feasible : (assembleCHPP witnessRamp).FeasibleRelaxed xRamp := by
+  unfold AssetProblem.FeasibleRelaxed InBounds
+  decide +kernel
+
+/-- … `1, 2, 5` is not: step 2 is outside the start ramp, so `v_2 − v_1 ≤ ramp` binds again -/
+theorem witnessRamp_binds : ¬ (assembleCHPP witnessRamp).FeasibleRelaxed
+    (fun j => [1, 2, 5, 1, 1, 1, 1, 0, 0, 0, 0, 0].getD j 0) := by
+  unfold AssetProblem.FeasibleRelaxed InBounds
+  decide +kernel
 
 /-! ## (D) `convertRamp` (`CHPAsset._convert_ramp`)
 
@@ -1612,3 +1639,8 @@ theorem resolveCHPP_prof {p : CHPP} {q : CHPProfP} {base : AssetProblem} {g : Gr
                   · injection h with h; injection h with h; subst h; rfl
 
 end EAO.CHPProfCommit
+
+/-
+`#print axioms` (scratch file importing the built module): every theorem of `EAO/Properties/C06Profile.lean`, which
+re-exports the results of this file, depends on [propext, Classical.choice, Quot.sound] only (`wf_of_ok`: propext, Quot.sound).
+-/
